@@ -86,7 +86,7 @@ Definition advance (s : bytes) (p : pos) : pos := adv s 0 false p.
 
 (* ------------------------------------------------------------------------------------------------ matchers
    Each regular expression of the pattern table as a recogniser anchored at the start of the remaining input,
-   returning the length of Go's (leftmost-first) match.  `regex.FindStringIndex(rem)` followed by `loc[0] == 0`
+   returning the List.length of Go's (leftmost-first) match.  `regex.FindStringIndex(rem)` followed by `loc[0] == 0`
    succeeds iff an anchored match exists, and `regex.FindString(rem)` in the handler then returns that same match. *)
 Definition matcher := bytes -> option nat.
 
@@ -99,7 +99,7 @@ Definition not_eol (b : Z) : bool := negb ((b =? 10) || (b =? 13)).
 Definition m_line_comment : matcher := fun s =>
   if starts [47; 47] s then Some (2 + span not_eol (skipn 2 s))%nat else None.
 
-(* block comment pattern (dot matches newline, lazy star): length up to and including the first star-slash *)
+(* block comment pattern (dot matches newline, lazy star): List.length up to and including the first star-slash *)
 Fixpoint find_close (s : bytes) : option nat :=
   match s with
   | a :: t =>
@@ -207,7 +207,7 @@ Definition m_ident : matcher := fun s =>
   match s with a :: t => if is_id_start a then Some (S (span is_id_cont t)) else None | [] => None end.
 
 (* a literal operator pattern *)
-Definition m_lit (lit : bytes) : matcher := fun s => if starts lit s then Some (length lit) else None.
+Definition m_lit (lit : bytes) : matcher := fun s => if starts lit s then Some (List.length lit) else None.
 
 (* ------------------------------------------------------------------------------------------------ pattern table *)
 Inductive handler := HSkip | HComment | HString | HByte | HNumber | HIdent | HDefault (tok : bytes).
@@ -281,7 +281,7 @@ Definition normalize_comment (raw : bytes) : bytes :=
   if starts [47; 47] raw then
     let text := skipn 2 raw in
     match text with c :: t => if c =? 32 then t else text | [] => text end
-  else if (4 <=? length raw)%nat && starts [47; 42] raw then firstn (length raw - 4) (skipn 2 raw)
+  else if (4 <=? List.length raw)%nat && starts [47; 42] raw then firstn (List.length raw - 4) (skipn 2 raw)
   else raw.
 
 Definition hexdigit (v : Z) : Z := if v <? 10 then 48 + v else 87 + v.
@@ -316,12 +316,12 @@ Definition run_handler (kws : list bytes) (h : handler) (m : bytes) (st : state)
   | HSkip => mkSt (advance m p) (stoks st) (serrs st)
   | HComment => let e := advance m p in mkSt e (mkTok k_comment (normalize_comment m) p e :: stoks st) (serrs st)
   | HString => let e := advance m p in
-               mkSt e (mkTok k_string (unescape (firstn (length m - 2) (skipn 1 m)) 0) p e :: stoks st) (serrs st)
+               mkSt e (mkTok k_string (unescape (firstn (List.length m - 2) (skipn 1 m)) 0) p e :: stoks st) (serrs st)
   | HNumber => let e := advance m p in mkSt e (mkTok k_number m p e :: stoks st) (serrs st)
   | HIdent => let e := advance m p in
               mkSt e (mkTok (if is_keyword kws m then m else k_ident) m p e :: stoks st) (serrs st)
   | HByte => let e := advance m p in
-             let lit := firstn (length m - 2) (skipn 1 m) in
+             let lit := firstn (List.length m - 2) (skipn 1 m) in
              match parse_byte_escape lit with
              | BOk text => mkSt e (mkTok k_byte text p e :: stoks st) (serrs st)
              | BIncomplete => mkSt e (mkTok k_byte lit p e :: stoks st) (EByteIncomplete p e :: serrs st)
@@ -343,7 +343,7 @@ Definition step (ops : list (bytes * bytes)) (kws : list bytes) (src : bytes) (s
     end
   end.
 
-Definition at_eof (src : bytes) (st : state) : bool := (length src <=? pidx (spos st))%nat.
+Definition at_eof (src : bytes) (st : state) : bool := (List.length src <=? pidx (spos st))%nat.
 
 Definition finish (st : state) : list token * list lexerr :=
   (rev (mkTok k_eof eof_text (spos st) (spos st) :: stoks st), rev (serrs st)).
@@ -357,7 +357,7 @@ Fixpoint loop (fuel : nat) ops kws (src : bytes) (st : state) : option (list tok
 
 Definition st0 : state := mkSt pos0 [] [].
 Definition tokenize ops kws (src : bytes) : option (list token * list lexerr) :=
-  loop (length src) ops kws src st0.
+  loop (List.length src) ops kws src st0.
 
 (* ------------------------------------------------------------------------------------------------ correspondence *)
 (* observed token: kind, text, start (line, col, idx), end (line, col, idx) *)
